@@ -64,7 +64,7 @@ fn run_float<T: Fl>(c: &FCase, lx: &mut Local) {
                         let bound = c4(n) * u * fl::abs_sum(&xr).to_f64_up_abs() / n as f64;
                         let e = err_of(got.to_f64_(), &want);
                         lx.ratio("mean", e / bound.max(f64::MIN_POSITIVE));
-                        lx.check(e <= bound, "C06/mean", || format!("{} (stride {}) = {:?}, exact {:e}, error {:e} > bound {:e}", desc("mean"), st, got, want.to_f64(), e, bound));
+                        lx.within(e, bound, "C06/mean", || format!("{} (stride {}) = {:?}, exact {:e}, error {:e} > bound {:e}", desc("mean"), st, got, want.to_f64(), e, bound));
                         obs.push(got.bits_());
                     }
                 }
@@ -86,7 +86,7 @@ fn run_float<T: Fl>(c: &FCase, lx: &mut Local) {
                             Ok(Ok(got)) => {
                                 let e = err_of(got.to_f64_(), &want);
                                 lx.ratio("harmonic_mean", e / bound);
-                                lx.check(e <= bound, "C06/harmonic-mean", || format!("{} = {:?}, exact {:e}, error {:e} > bound {:e}", desc("harmonic_mean"), got, want.to_f64(), e, bound));
+                                lx.within(e, bound, "C06/harmonic-mean", || format!("{} = {:?}, exact {:e}, error {:e} > bound {:e}", desc("harmonic_mean"), got, want.to_f64(), e, bound));
                                 obs.push(got.bits_());
                             }
                             other => lx.fail("C06/harmonic-mean-failed", || format!("{}: {:?}", desc("harmonic_mean"), other.map(|r| r.map(|x| x.to_f64_())))),
@@ -110,7 +110,7 @@ fn run_float<T: Fl>(c: &FCase, lx: &mut Local) {
                     Ok(Ok(got)) => {
                         let e = (got.to_f64_() - want).abs();
                         lx.ratio("geometric_mean", e / tol);
-                        lx.check(e <= tol, "C06/geometric-mean", || format!("{} = {:?}, reference {:e}, error {:e} > tolerance {:e}", desc("geometric_mean"), got, want, e, tol));
+                        lx.within(e, tol, "C06/geometric-mean", || format!("{} = {:?}, reference {:e}, error {:e} > tolerance {:e}", desc("geometric_mean"), got, want, e, tol));
                         obs.push(got.bits_());
                     }
                     other => lx.fail("C06/geometric-mean-failed", || format!("{}: {:?}", desc("geometric_mean"), other.map(|r| r.map(|x| x.to_f64_())))),
@@ -144,7 +144,7 @@ fn run_float<T: Fl>(c: &FCase, lx: &mut Local) {
                     Ok(Ok(got)) => {
                         let e = err_of(got.to_f64_(), &s);
                         lx.ratio("weighted_sum", e / sbound.max(f64::MIN_POSITIVE));
-                        lx.check(e <= sbound, "C06/weighted-sum", || format!("[{}] weighted_sum of {:?} (stride {}) with weights {:?} (stride {}) = {:?}, exact {:e}, error {:e} > bound {:e}", T::NAME, xs, sx, ws, sw, got, s.to_f64(), e, sbound));
+                        lx.within(e, sbound, "C06/weighted-sum", || format!("[{}] weighted_sum of {:?} (stride {}) with weights {:?} (stride {}) = {:?}, exact {:e}, error {:e} > bound {:e}", T::NAME, xs, sx, ws, sw, got, s.to_f64(), e, sbound));
                         obs.push(got.bits_());
                     }
                     other => lx.fail("C06/weighted-sum-failed", || format!("[{}] weighted_sum of {:?} with {:?}: {:?}", T::NAME, xs, ws, other.map(|r| r.map(|x| x.to_f64_())))),
@@ -158,7 +158,7 @@ fn run_float<T: Fl>(c: &FCase, lx: &mut Local) {
                         Ok(Ok(got)) => {
                             let e = err_of(got.to_f64_(), &want);
                             lx.ratio("weighted_mean", e / bound.max(f64::MIN_POSITIVE));
-                            lx.check(e <= bound, "C06/weighted-mean", || format!("[{}] weighted_mean of {:?} (stride {}) with weights {:?} (stride {}) = {:?}, exact {:e}, error {:e} > bound {:e}", T::NAME, xs, sx, ws, sw, got, want.to_f64(), e, bound));
+                            lx.within(e, bound, "C06/weighted-mean", || format!("[{}] weighted_mean of {:?} (stride {}) with weights {:?} (stride {}) = {:?}, exact {:e}, error {:e} > bound {:e}", T::NAME, xs, sx, ws, sw, got, want.to_f64(), e, bound));
                             obs.push(got.bits_());
                         }
                         other => lx.fail("C06/weighted-mean-failed", || format!("[{}] weighted_mean of {:?} with {:?}: {:?}", T::NAME, xs, ws, other.map(|r| r.map(|x| x.to_f64_())))),
@@ -289,18 +289,18 @@ fn run_nd<T: Fl>(c: &NCase, lx: &mut Local) {
                     let sb = c4(ll) * u * a.to_f64_up_abs();
                     let e = err_of(fs[j].to_f64_(), &s);
                     lx.ratio("weighted_sum_axis", e / sb.max(f64::MIN_POSITIVE));
-                    lx.check(e <= sb, "C06/weighted-sum-axis", || format!("[{}] weighted_sum_axis lane {} = {:?}, exact {:e}, error {:e} > bound {:e}; lane {:?} weights {:?}; {:?}", T::NAME, j, fs[j], s.to_f64(), e, sb, lx_, ws, c));
+                    lx.within(e, sb, "C06/weighted-sum-axis", || format!("[{}] weighted_sum_axis lane {} = {:?}, exact {:e}, error {:e} > bound {:e}; lane {:?} weights {:?}; {:?}", T::NAME, j, fs[j], s.to_f64(), e, sb, lx_, ws, c));
                     let want = &s / &wtot;
                     let mb = 2.0 * c4(ll) * u * (a.to_f64_up_abs() / wtot.to_f64());
                     let e = err_of(fm[j].to_f64_(), &want);
                     lx.ratio("weighted_mean_axis", e / mb.max(f64::MIN_POSITIVE));
-                    lx.check(e <= mb, "C06/weighted-mean-axis", || format!("[{}] weighted_mean_axis lane {} = {:?}, exact {:e}, error {:e} > bound {:e}; lane {:?} weights {:?}; {:?}", T::NAME, j, fm[j], want.to_f64(), e, mb, lx_, ws, c));
+                    lx.within(e, mb, "C06/weighted-mean-axis", || format!("[{}] weighted_mean_axis lane {} = {:?}, exact {:e}, error {:e} > bound {:e}; lane {:?} weights {:?}; {:?}", T::NAME, j, fm[j], want.to_f64(), e, mb, lx_, ws, c));
                     // against the whole-array routine on that lane (same weights): within twice the bound
                     let lane_arr = Array1::from(lx_.clone());
                     let w_arr = Array1::from(ws.clone());
                     if let (Ok(ws1), Ok(wm1)) = (lane_arr.weighted_sum(&w_arr), lane_arr.weighted_mean(&w_arr)) {
-                        lx.check((ws1.to_f64_() - fs[j].to_f64_()).abs() <= 2.0 * sb, "C06/axis-vs-whole-array", || format!("[{}] weighted_sum_axis lane {} = {:?} but weighted_sum of the lane = {:?}", T::NAME, j, fs[j], ws1));
-                        lx.check((wm1.to_f64_() - fm[j].to_f64_()).abs() <= 2.0 * mb, "C06/axis-vs-whole-array", || format!("[{}] weighted_mean_axis lane {} = {:?} but weighted_mean of the lane = {:?}", T::NAME, j, fm[j], wm1));
+                        lx.within((ws1.to_f64_() - fs[j].to_f64_()).abs(), 2.0 * sb, "C06/axis-vs-whole-array", || format!("[{}] weighted_sum_axis lane {} = {:?} but weighted_sum of the lane = {:?}", T::NAME, j, fs[j], ws1));
+                        lx.within((wm1.to_f64_() - fm[j].to_f64_()).abs(), 2.0 * mb, "C06/axis-vs-whole-array", || format!("[{}] weighted_mean_axis lane {} = {:?} but weighted_mean of the lane = {:?}", T::NAME, j, fm[j], wm1));
                         if ws1.bits_() == fs[j].bits_() && wm1.bits_() == fm[j].bits_() {
                             lx.count("axis_results_bit_equal_to_whole_array_routine", 1);
                         } else {
@@ -332,7 +332,7 @@ fn run_nd<T: Fl>(c: &NCase, lx: &mut Local) {
             Ok(Ok(got)) => {
                 let sb = c4(n) * u * a.to_f64_up_abs();
                 let e = err_of(got.to_f64_(), &s);
-                lx.check(e <= sb, "C06/weighted-sum-nd", || format!("[{}] n-D weighted_sum = {:?}, exact {:e}, error {:e} > bound {:e}: {:?} (weights in layout {:?})", T::NAME, got, s.to_f64(), e, sb, c, lw));
+                lx.within(e, sb, "C06/weighted-sum-nd", || format!("[{}] n-D weighted_sum = {:?}, exact {:e}, error {:e} > bound {:e}: {:?} (weights in layout {:?})", T::NAME, got, s.to_f64(), e, sb, c, lw));
             }
             other => lx.fail("C06/weighted-sum-failed", || format!("n-D weighted_sum: {:?} on {:?}", other.map(|r| r.map(|x| x.to_f64_())), c)),
         }
@@ -341,7 +341,7 @@ fn run_nd<T: Fl>(c: &NCase, lx: &mut Local) {
                 let want = fl::mean(&dr);
                 let b = c4(n) * u * fl::abs_sum(&dr).to_f64_up_abs() / n as f64;
                 let e = err_of(got.to_f64_(), &want);
-                lx.check(e <= b, "C06/mean-nd", || format!("[{}] n-D mean = {:?}, exact {:e}, error {:e} > bound {:e}: {:?}", T::NAME, got, want.to_f64(), e, b, c));
+                lx.within(e, b, "C06/mean-nd", || format!("[{}] n-D mean = {:?}, exact {:e}, error {:e} > bound {:e}: {:?}", T::NAME, got, want.to_f64(), e, b, c));
             }
             other => lx.fail("C06/mean-failed", || format!("n-D mean: {:?} on {:?}", other.map(|r| r.map(|x| x.to_f64_())), c)),
         }
@@ -402,7 +402,7 @@ fn run_wide<T: Fl>(c: &WCase, lx: &mut Local) {
             match guarded(|| SummaryStatisticsExt::mean(&v)) {
                 Ok(Ok(g)) => {
                     let e = err_of(g.to_f64_(), &want);
-                    lx.check(e <= bound, "C06/mean-wide", || format!("[{}] mean of {:?} = {:?}, exact {:e}, error {:e} > bound {:e}", T::NAME, xs, g, want.to_f64(), e, bound));
+                    lx.within(e, bound, "C06/mean-wide", || format!("[{}] mean of {:?} = {:?}, exact {:e}, error {:e} > bound {:e}", T::NAME, xs, g, want.to_f64(), e, bound));
                     obs.push(g.bits_());
                 }
                 other => lx.fail("C06/mean-failed", || format!("[{}] mean of {:?}: {:?}", T::NAME, xs, other.map(|r| r.map(|x| x.to_f64_())))),
@@ -416,7 +416,7 @@ fn run_wide<T: Fl>(c: &WCase, lx: &mut Local) {
             match guarded(|| v.harmonic_mean()) {
                 Ok(Ok(g)) => {
                     let e = err_of(g.to_f64_(), &hwant);
-                    lx.check(e <= hb, "C06/harmonic-mean-wide", || format!("[{}] harmonic_mean of {:?} = {:?}, exact {:e}, error {:e} > bound {:e}", T::NAME, xs, g, hwant.to_f64(), e, hb));
+                    lx.within(e, hb, "C06/harmonic-mean-wide", || format!("[{}] harmonic_mean of {:?} = {:?}, exact {:e}, error {:e} > bound {:e}", T::NAME, xs, g, hwant.to_f64(), e, hb));
                     obs.push(g.bits_());
                 }
                 other => lx.fail("C06/harmonic-mean-failed", || format!("[{}] harmonic_mean of {:?}: {:?}", T::NAME, xs, other.map(|r| r.map(|x| x.to_f64_())))),
@@ -431,7 +431,7 @@ fn run_wide<T: Fl>(c: &WCase, lx: &mut Local) {
                 Ok(Ok(g)) => {
                     let e = (g.to_f64_() - gwant).abs();
                     lx.ratio("geometric_mean_wide", e / tol);
-                    lx.check(e <= tol, "C06/geometric-mean-wide", || format!("[{}] geometric_mean of {:?} = {:?}, reference {:e}, error {:e} > tolerance {:e}", T::NAME, xs, g, gwant, e, tol));
+                    lx.within(e, tol, "C06/geometric-mean-wide", || format!("[{}] geometric_mean of {:?} = {:?}, reference {:e}, error {:e} > tolerance {:e}", T::NAME, xs, g, gwant, e, tol));
                     obs.push(g.bits_());
                 }
                 other => lx.fail("C06/geometric-mean-failed", || format!("[{}] geometric_mean of {:?}: {:?}", T::NAME, xs, other.map(|r| r.map(|x| x.to_f64_())))),
@@ -485,7 +485,7 @@ fn run_sweep<T: Fl>(c: &SCase, lx: &mut Local) {
             Ok(Ok(g)) => {
                 let e = err_of(g.to_f64_(), &want);
                 lx.ratio("mean_long", e / b.max(f64::MIN_POSITIVE));
-                lx.check(e <= b, "C06/mean-long", || format!("[{}] mean of {} elements (fill {}, stride {}) = {:?}, exact {:e}, error {:e} > bound {:e}", T::NAME, n, c.fill, step, g, want.to_f64(), e, b));
+                lx.within(e, b, "C06/mean-long", || format!("[{}] mean of {} elements (fill {}, stride {}) = {:?}, exact {:e}, error {:e} > bound {:e}", T::NAME, n, c.fill, step, g, want.to_f64(), e, b));
                 obs.push(g.bits_());
             }
             other => lx.fail("C06/mean-failed", || format!("[{}] mean of {} elements: {:?}", T::NAME, n, other.map(|r| r.map(|x| x.to_f64_())))),
@@ -495,7 +495,7 @@ fn run_sweep<T: Fl>(c: &SCase, lx: &mut Local) {
         match guarded(|| vx.weighted_sum(&vw)) {
             Ok(Ok(g)) => {
                 let e = err_of(g.to_f64_(), &s);
-                lx.check(e <= sb, "C06/weighted-sum-long", || format!("[{}] weighted_sum of {} elements (fill {}) = {:?}, exact {:e}, error {:e} > bound {:e}", T::NAME, n, c.fill, g, s.to_f64(), e, sb));
+                lx.within(e, sb, "C06/weighted-sum-long", || format!("[{}] weighted_sum of {} elements (fill {}) = {:?}, exact {:e}, error {:e} > bound {:e}", T::NAME, n, c.fill, g, s.to_f64(), e, sb));
                 obs.push(g.bits_());
             }
             other => lx.fail("C06/weighted-sum-failed", || format!("[{}] weighted_sum of {} elements: {:?}", T::NAME, n, other.map(|r| r.map(|x| x.to_f64_())))),
@@ -506,7 +506,7 @@ fn run_sweep<T: Fl>(c: &SCase, lx: &mut Local) {
         match guarded(|| vx.weighted_mean(&vw)) {
             Ok(Ok(g)) => {
                 let e = err_of(g.to_f64_(), &mw);
-                lx.check(e <= mb, "C06/weighted-mean-long", || format!("[{}] weighted_mean of {} elements (fill {}) = {:?}, exact {:e}, error {:e} > bound {:e}", T::NAME, n, c.fill, g, mw.to_f64(), e, mb));
+                lx.within(e, mb, "C06/weighted-mean-long", || format!("[{}] weighted_mean of {} elements (fill {}) = {:?}, exact {:e}, error {:e} > bound {:e}", T::NAME, n, c.fill, g, mw.to_f64(), e, mb));
             }
             other => lx.fail("C06/weighted-mean-failed", || format!("[{}] weighted_mean of {} elements: {:?}", T::NAME, n, other.map(|r| r.map(|x| x.to_f64_())))),
         }
@@ -517,7 +517,7 @@ fn run_sweep<T: Fl>(c: &SCase, lx: &mut Local) {
             match guarded(|| vx.harmonic_mean()) {
                 Ok(Ok(g)) => {
                     let e = err_of(g.to_f64_(), &hw_);
-                    lx.check(e <= hb, "C06/harmonic-mean-long", || format!("[{}] harmonic_mean of {} elements = {:?}, exact {:e}, error {:e} > bound {:e}", T::NAME, n, g, hw_.to_f64(), e, hb));
+                    lx.within(e, hb, "C06/harmonic-mean-long", || format!("[{}] harmonic_mean of {} elements = {:?}, exact {:e}, error {:e} > bound {:e}", T::NAME, n, g, hw_.to_f64(), e, hb));
                 }
                 other => lx.fail("C06/harmonic-mean-failed", || format!("harmonic_mean of {} elements: {:?}", n, other.map(|r| r.map(|x| x.to_f64_())))),
             }
@@ -527,7 +527,7 @@ fn run_sweep<T: Fl>(c: &SCase, lx: &mut Local) {
             let tol = 4.0 * (n as f64 + 8.0) * u * (1.0 + lns.iter().map(|l| l.abs()).sum::<f64>() / n as f64) * gw;
             match guarded(|| vx.geometric_mean()) {
                 Ok(Ok(g)) => {
-                    lx.check((g.to_f64_() - gw).abs() <= tol, "C06/geometric-mean-long", || format!("[{}] geometric_mean of {} elements = {:?}, reference {:e}, tolerance {:e}", T::NAME, n, g, gw, tol));
+                    lx.within((g.to_f64_() - gw).abs(), tol, "C06/geometric-mean-long", || format!("[{}] geometric_mean of {} elements = {:?}, reference {:e}, tolerance {:e}", T::NAME, n, g, gw, tol));
                 }
                 other => lx.fail("C06/geometric-mean-failed", || format!("geometric_mean of {} elements: {:?}", n, other.map(|r| r.map(|x| x.to_f64_())))),
             }
@@ -556,12 +556,12 @@ fn run_sweep<T: Fl>(c: &SCase, lx: &mut Local) {
                             let (s, a) = fl::weighted_sum(&lr, &wr);
                             let sb = c4(n) * u * a.to_f64_up_abs();
                             let e = err_of(fs[j].to_f64_(), &s);
-                            lx.check(e <= sb, "C06/weighted-sum-axis-long", || format!("[{}] weighted_sum_axis over a lane of {} elements (shape {:?} axis {}, lane {}) = {:?}, exact {:e}, error {:e} > bound {:e}", T::NAME, n, shape, axis, j, fs[j], s.to_f64(), e, sb));
+                            lx.within(e, sb, "C06/weighted-sum-axis-long", || format!("[{}] weighted_sum_axis over a lane of {} elements (shape {:?} axis {}, lane {}) = {:?}, exact {:e}, error {:e} > bound {:e}", T::NAME, n, shape, axis, j, fs[j], s.to_f64(), e, sb));
                             let wt = sum(wr.iter());
                             let want = &s / &wt;
                             let mb = 2.0 * c4(n) * u * (a.to_f64_up_abs() / wt.to_f64());
                             let e = err_of(fm[j].to_f64_(), &want);
-                            lx.check(e <= mb, "C06/weighted-mean-axis-long", || format!("[{}] weighted_mean_axis over a lane of {} elements (shape {:?} axis {}, lane {}) = {:?}, exact {:e}", T::NAME, n, shape, axis, j, fm[j], want.to_f64()));
+                            lx.within(e, mb, "C06/weighted-mean-axis-long", || format!("[{}] weighted_mean_axis over a lane of {} elements (shape {:?} axis {}, lane {}) = {:?}, exact {:e}", T::NAME, n, shape, axis, j, fm[j], want.to_f64()));
                         }
                         fs.len() as u64
                     }
